@@ -530,7 +530,9 @@ Inductive shaped : list fld -> rdata -> Prop :=
 | sh_rest b : shaped [FRest] [PB b]
 | sh_cnt16 d fs r : zlen d <= 65535 -> shaped fs r -> shaped (FCnt16 :: fs) (PB (MessageM.u16 (zlen d) ++ d) :: r)
 | sh_max16 mx v fs r : 0 <= v <= mx -> v <= 65535 -> shaped fs r -> shaped (FMax16 mx :: fs) (PB (MessageM.u16 v) :: r)
-| sh_txt b : txt_ok b -> shaped [FTxt] [PB b].
+| sh_txt b : txt_ok b -> shaped [FTxt] [PB b]
+| sh_cnt8 d fs r : zlen d <= 255 -> shaped fs r -> shaped (FCnt8 :: fs) (PB (zlen d :: d) :: r)
+| sh_rest1 b : b <> [] -> shaped [FRest1] [PB b].
 
 Lemma txt_loop_ok : forall ss pre post fuel endp count,
   Forall (fun s => zlen s <= 255) ss ->
@@ -580,7 +582,7 @@ Lemma rd_em_read o : org_ok o -> forall fs rd, shaped fs rd ->
         = Ok (rev acc ++ rd', length (file ++ em))) /\
       (forall tq, tbl_ci tq t -> exists tq', rd_em rd' o c (zlen file) tq = Ok (em, tq') /\ tbl_ci tq' t').
 Proof.
-  intros OO fs rd S. induction S as [|n b fs r Hb S IH|n fs r S IH|n fs r S IH|n fs r NOa S IH|b|d fs r Hd S IH|mx v fs r Hv Hv2 S IH|b Hb];
+  intros OO fs rd S. induction S as [|n b fs r Hb S IH|n fs r S IH|n fs r S IH|n fs r NOa S IH|b|d fs r Hd S IH|mx v fs r Hv Hv2 S IH|b Hb|d fs r Hd S IH|b Hne];
     intros c file t em t' TS PO H.
   - injection H as <- <-. rewrite app_nil_r. split; [exact TS|]. exists []. split; [constructor|]. split; [constructor|]. split; [constructor|]. split.
     + intros ext acc. cbn [dec_fields]. rewrite app_nil_r. reflexivity.
@@ -731,6 +733,42 @@ Proof.
     rewrite (txt_loop_ok ss file ext _ _ 0 HF eq_refl) by lia. cbn [bind].
     destruct ss as [|s ss]; [congruence|]. cbn [length Nat.add Nat.eqb].
     rewrite rd_bytes_at by (rewrite app_length; lia). cbn [bind rev]. reflexivity.
+  - (* FCnt8 *)
+    cbn [rd_em] in H. apply bind_ok in H. destruct H as ([e2 t2] & H2 & H). injection H as <- <-.
+    inversion PO as [|? ? _ PO']; subst. rewrite <- zlen_app' in H2.
+    set (b := zlen d :: d) in *.
+    destruct (IH c (file ++ b) t e2 t2 (TableSound_app _ _ _ TS) PO' H2) as (TS' & rd' & CI & PO2 & S' & RD & RE).
+    rewrite <- app_assoc in TS'. split; [exact TS'|]. exists (PB b :: rd').
+    split; [apply rdata_ci_refl_pb; exact CI|]. split; [constructor; [exact Logic.I|exact PO2]|].
+    split; [constructor; assumption|].
+    split; [|intros tq TC; destruct (RE tq TC) as (tq' & E & TC'); exists tq'; split; [|exact TC']; cbn [rd_em]; rewrite <- zlen_app'; rewrite E; reflexivity].
+    intros ext acc. cbn [dec_fields]. pose proof (zlen_nn d) as Hd0.
+    change (file ++ zlen d :: d ++ e2) with (file ++ b ++ e2).
+    assert (Hlb : length b = (1 + length d)%nat) by reflexivity.
+    assert (Hu8 : rd_u8 ((file ++ b ++ e2) ++ ext) (length (file ++ b ++ e2)) (length file) = Ok (zlen d)).
+    { unfold rd_u8. change 1%nat with (length [zlen d]).
+      assert (Eq1 : (file ++ b ++ e2) ++ ext = file ++ [zlen d] ++ (d ++ e2 ++ ext)).
+      { unfold b. change (zlen d :: d) with ([zlen d] ++ d). rewrite <- !app_assoc. reflexivity. }
+      rewrite Eq1.
+      rewrite rd_bytes_at by (unfold b; rewrite !app_length; cbn [length]; lia). reflexivity. }
+    rewrite Hu8. cbn [bind].
+    replace (Z.to_nat (zlen d)) with (length d) by (unfold zlen; rewrite Nat2Z.id; reflexivity).
+    replace ((file ++ b ++ e2) ++ ext) with (file ++ b ++ (e2 ++ ext)) by (rewrite <- !app_assoc; reflexivity).
+    replace (1 + length d)%nat with (length b) by lia.
+    rewrite rd_bytes_at by (rewrite !app_length; lia). cbn [bind].
+    replace (file ++ b ++ e2 ++ ext) with (((file ++ b) ++ e2) ++ ext) by (rewrite <- !app_assoc; reflexivity).
+    replace (length file + 1 + length d)%nat with (length (file ++ b)) by (rewrite app_length; lia).
+    replace (length (file ++ b ++ e2)) with (length ((file ++ b) ++ e2)) by (rewrite <- app_assoc; reflexivity).
+    rewrite RD. cbn [rev]. rewrite <- app_assoc. reflexivity.
+  - (* FRest1 *)
+    cbn [rd_em] in H. injection H as <- <-. rewrite app_nil_r.
+    split; [apply TableSound_app; exact TS|]. exists [PB b].
+    split; [constructor; [reflexivity|constructor]|]. split; [exact PO|]. split; [constructor; exact Hne|].
+    split; [|intros tq TC; exists tq; split; [cbn [rd_em bind fst snd]; rewrite app_nil_r; reflexivity|exact TC]].
+    intros ext acc. cbn [dec_fields].
+    replace (length (file ++ b) - length file)%nat with (length b) by (rewrite app_length; lia).
+    destruct b as [|x b']; [congruence|]. cbn [length Nat.eqb].
+    rewrite <- app_assoc. rewrite rd_bytes_at by (rewrite app_length; lia). cbn [bind rev]. reflexivity.
 Qed.
 
 (* ---------- one RR ---------- *)
